@@ -17,7 +17,6 @@ import (
 	"errors"
 	"fmt"
 	"io"
-	"os"
 	"sort"
 	"strings"
 	"testing"
@@ -495,14 +494,6 @@ func run(t *testing.T, tape *simrt.Tape) *hx.Outcome {
 			}
 		} else if !bytes.HasPrefix(u, tarB) {
 			return fail("lossless", "the decompressed stream does not start with the %d bytes of the input tar", len(tarB))
-		}
-	}
-	// temp files of the build are gone once the blob is closed
-	if ents, err := os.ReadDir(os.TempDir()); err == nil {
-		for _, e := range ents {
-			if strings.HasPrefix(e.Name(), "tempdata") || strings.HasPrefix(e.Name(), "esgzdata") {
-				out.Counters["temp_files_left"]++
-			}
 		}
 	}
 	return out
